@@ -160,6 +160,23 @@ def r4_peers(ctx):
         else:
             ctx.check(nput == 2, 'symmetric', 'a new connection is entered into both tables (symmetry)', f.where_path(path), nput)
     ctx.check(early, 'already-connected-check', 'connect detects an existing connection to the same peer', f.where())
+    # idempotence comes first: the capacity assertion is only reached after the already-connected scan found nothing
+    scans = [s for s in f.calls() if s.name.endswith('Arc::ptr_eq') and any(x[0] == 'field' and x[2] == 'endpoint' for x in walk(f.expr_operand(s.args[0], s.b, 'T')))]
+    cap_panics = []
+    for s in f.calls():
+        if s.is_diverging():
+            atoms = [a for _, a in f.guard_atoms(s.b)]
+            self_check = any(a[0] == 'bool' and a[2] is True and a[1][0] == 'call' and a[1][1].endswith('Arc::ptr_eq') and
+                             not any(x[0] == 'field' and x[2] == 'endpoint' for x in walk(a[1])) for a in atoms)
+            if not self_check and s.name.startswith(('std::rt::panic', 'core::panicking', 'std::panicking')):
+                cap_panics.append(s)
+    if ctx.floor('already-connected scan in Gate::connect', len(scans), 1) and ctx.floor('capacity assertion in Gate::connect', len(cap_panics), 1):
+        hdrs = [h for h in f.loops_containing(scans[0].b)]
+        for cp in cap_panics:
+            ok = any(f.dominates(h, cp.b) and cp.b not in f.loops()[h] for h in hdrs)
+            ctx.check(ok, 'idempotence-before-capacity',
+                      'the "at most two peers" assertion is evaluated only after the already-connected scan: re-connecting an existing pair is a no-op even when both gates are full',
+                      cp.where())
     for s in puts:
         atoms = [a for _, a in f.guard_atoms(s.b)]
         lens = [a for a in atoms if a[0] == 'cmp' and a[1] == 'lt' and a[2][0] == 'call' and a[2][1] == G + 'Connections::len' and a[3] == ('int', 2)]
